@@ -122,6 +122,7 @@ for n in ("ImmBool", "ImmNum", "Implicit", "Local", "Primitive", "Tmp"):
 out.append("Definition impl_imm_bits : N := %s." % (imm.group(1) if imm else "0"))
 text = "\n".join(out) + "\n"
 path = os.path.join(os.path.dirname(os.path.dirname(os.path.abspath(__file__))), "coq", "gen", "LangTables.v")
+os.makedirs(os.path.dirname(path), exist_ok=True)
 old = open(path).read() if os.path.exists(path) else None
 if old != text:
     open(path, "w").write(text)
